@@ -1,5 +1,6 @@
 """C09 - equality is exactly equality of aggregated content (reference equality oracle)."""
 
+import copy
 import math
 import pickle
 
@@ -311,8 +312,24 @@ def check(case):  # noqa: PLR0912, PLR0915
             if not stream:
                 # nothing filled: every single-aspect variant of the declaration is compared, not only the drawn one
                 labels.append("all-variants-unfilled")
-                for _, desc, vspec in gen.all_variants(spec):
-                    other = build(vspec)
+                from histogrammar.defs import ContainerException  # noqa: PLC0415
+
+                extra = []
+                for i_, (_, node) in enumerate(walk_spec(spec)):
+                    if node["k"] == "Bag":
+                        # the declared range alone, the quantity untouched (nothing is filled, so any range will do)
+                        for rng in ("N", "S", "N2", "N3"):
+                            if rng != node["range"]:
+                                vspec = copy.deepcopy(spec)
+                                list(walk_spec(vspec))[i_][1]["range"] = rng
+                                extra.append((None, f"Bag.range-only {node['range']}->{rng}", vspec))
+                for origin_, desc, vspec in gen.all_variants(spec) + extra:
+                    try:
+                        other = build(vspec)
+                    except (ContainerException, ValueError):
+                        if origin_ is None:
+                            continue  # (a Label / Index takes children of one type only: this declaration does not exist)
+                        raise
                     da, db = ndoc(a), ndoc(other)
                     if not norm.same(da, db, norm.BITEXACT):
                         # (tolerance 0 only: a positive tolerance may legitimately bridge a tiny numeric difference)
